@@ -218,7 +218,11 @@ pub fn traces_for(c: &SemCase, t: &mut Tape, n: usize) -> Vec<Trace> {
 
 fn case(tape: &[u8], rec: &Rec) -> Verdict {
     let mut t = Tape::new(tape);
-    let c = gen_sem_case(&mut t, SemOpts::default());
+    let late = t.chance(70);
+    let c = gen_sem_case(&mut t, SemOpts { late_facts: late, ..SemOpts::default() });
+    if late {
+        rec.class("programs_biased_to_late_facts");
+    }
     let ssa = lift_ssa(&c)?;
     let ix = build_index(&c);
     let traces = traces_for(&c, &mut t, VALUATIONS);
